@@ -19,12 +19,14 @@ chk("C03","exploration","Shutdown injected at tape-chosen steps into live worklo
 chk("C04","exploration","Seeded exploration of handler behaviour scripts (reply/double reply/no reply/panic kinds/pre-responses/events/meta) x request kinds x payloads under concurrent load with slow-consumer drops, request loss and publish errors; exactly-one-response per reply inbox is decided at quiescence, which is a scheduler fact rather than a timeout.",base_note,tech,"5/C04")
 chk("C05","exploration","Refinement of the running service against an executable dispatch model and a response model, per request, with other requests in flight on other workers; request data seen by the handler must equal what the peer sent for that inbox.",base_note+" The dispatch and response models are written from the RES protocol and go-res documentation and are part of the trusted base.",tech,"5/C05")
 chk("C07","exploration","Transport monitor: every message the service publishes in the requests and core scenarios (including after injected marshal failures and publish errors) is validated at publish time by an independent protocol validator.",base_note+" The validator is written from the protocol text and is part of the trusted base.",tech,"5/C07")
+chk("C08","exploration","One global log (apply handlers, SimConn at publish time, listeners) stamped with event sequence numbers and tasks; for each callback (request handler, With/WithResource callback, foreign-goroutine emitter) the entries on its task must equal the predicted apply/publish/listener sequence, under interleaved publishes of other goroutines.",base_note,tech,"5/C08")
+chk("C09","exploration","Swarm over service names, ownership lists, handler-kind combinations and queue-group settings on the simulated broker with NATS routing and subject rules; coverage and non-redundancy are decided by routing generated concrete request subjects, reset content against an ownership model.",base_note+" The broker's subject matching and queue-group semantics are a stub written from the NATS documentation.",tech,"5/C09")
 na=[
  {"property_id":"C06","reason":"Mux.GetHandler is a pure function of (pattern set, name): no schedule, clock, fault or multi-party history for a simulator to range over; routing is exercised by C01/C05 whose reference matcher would disagree, but the for-all over pattern sets is not claimed."},
  {"property_id":"C17","reason":"Pure string functions of (pattern, name, tag map); nothing concurrent, timed or faulty to simulate."},
  {"property_id":"C18","reason":"Pure marshal/unmarshal round trips; the one multi-party clause (client package parsing service responses) is incidentally exercised by C05's peer but is not a simulation decision."},
 ]
-pending=["C08","C09","C10","C11","C12","C13","C14","C15","C16","C19","C20"]
+pending=["C10","C11","C12","C13","C14","C15","C16","C19","C20"]
 for p in pending:
     na.append({"property_id":p,"reason":"check not built yet in this revision of /verif (planned in DESIGN.md section 5); not claimed until its scenario and oracle exist"})
 m={"version":1,
